@@ -302,23 +302,12 @@ func checkC08(w *World, r *Report) {
 
 	r.Rule("R08.13", "comments and blanks between the pieces of an argument never reach the argument grammar: raw tokens (which include separator items — a comment splits a run of blanks into two of them) are read only by the nextNonSpace / peekNonSpace helpers", 1)
 	r.guard("R08.13", func() {
-		next := w.Method("parse", "Tree", "next")
-		peek := w.TryMethod("parse", "Tree", "peek")
-		var callers []string
-		for _, f := range funcDecls(p) {
-			if isTestFile(w, f.Pos()) {
-				continue
-			}
-			n := len(allCallsTo(p, f.Body, next))
-			if peek != nil {
-				n += len(allCallsTo(p, f.Body, peek))
-			}
-			if n > 0 {
-				callers = append(callers, funcDeclName(f))
-			}
-		}
+		callers, bad := c08RawTokenReaders(w)
 		sort.Strings(callers)
-		r.Check(strings.Join(callers, ",") == "Tree.nextNonSpace,Tree.peekNonSpace", "R08.13", "readers of raw tokens", token.NoPos, strings.Join(callers, ","), "raw tokens (including separators) are read by {"+strings.Join(callers, ",")+"}: a hand-written skip of `one separator` fails when a comment between two pieces has blanks on both sides")
+		if len(bad) > 0 {
+			callers = bad
+		}
+		r.Check(len(callers) > 0 && len(bad) == 0, "R08.13", "readers of raw tokens", token.NoPos, strings.Join(callers, ","), "raw tokens (including separators) are read by {"+strings.Join(callers, ",")+"}: a hand-written skip of `one separator` fails when a comment between two pieces has blanks on both sides")
 	})
 
 	r.Rule("R08.8", "every line of a multi-line double-quoted string contributes to the result: in trimWhitespace's per-line loop the accumulation (result += line, or Builder.WriteString) dominates every way back to the loop head — no line (blank ones included) is skipped together with its line break", 1)
@@ -587,6 +576,156 @@ func c10StmtStar(w *World) string {
 	return "no loop with a list of statements found"
 }
 
+// c08RawTokenReaders: the functions that read raw tokens (Tree.next, and
+// Tree.peek where it exists), and those among them that are not skip helpers:
+// a skip helper hands a raw token on only after having tested that it is not
+// a separator (every exit that returns a token read by next() is taken under
+// typ != itemSep).
+func c08RawTokenReaders(w *World) (readers, bad []string) {
+	p := w.Pkg("parse")
+	next := w.SSAFunc(w.Method("parse", "Tree", "next"))
+	var peek *ssa.Function
+	if m := w.TryMethod("parse", "Tree", "peek"); m != nil {
+		peek = w.SSAFunc(m)
+	}
+	sepC, _ := scopeLookup(p.Types.Scope(), "itemSep").(*types.Const)
+	if sepC == nil {
+		panic(undecided{"parse.itemSep"})
+	}
+	sep, _ := intConst(sepC.Val())
+	for _, fd := range funcDecls(p) {
+		if isTestFile(w, fd.Pos()) {
+			continue
+		}
+		obj, _ := p.TypesInfo.Defs[fd.Name].(*types.Func)
+		f := w.SSAFunc(obj)
+		if f == nil {
+			continue
+		}
+		var raws []*ssa.Call
+		for _, b := range f.Blocks {
+			for _, in := range b.Instrs {
+				if c, ok := in.(*ssa.Call); ok && (c.Call.StaticCallee() == next || (peek != nil && c.Call.StaticCallee() == peek)) {
+					raws = append(raws, c)
+				}
+			}
+		}
+		if len(raws) == 0 {
+			continue
+		}
+		name := funcDeclName(fd)
+		readers = append(readers, name)
+		sym := NewSym(w)
+		ok := true
+		isRaw := func(v ssa.Value) bool {
+			for _, c := range raws {
+				if v == ssa.Value(c) {
+					return true
+				}
+			}
+			return false
+		}
+		// the local a raw token is kept in (a named result, a variable): everything stored there is a raw token
+		cells := map[*ssa.Alloc]bool{}
+		for _, b := range f.Blocks {
+			for _, in := range b.Instrs {
+				if a, isA := in.(*ssa.Alloc); isA && !a.Heap {
+					holds, other := false, false
+					for _, ref := range *a.Referrers() {
+						if st, isSt := ref.(*ssa.Store); isSt && st.Addr == ssa.Value(a) {
+							ld, isLd := st.Val.(*ssa.UnOp)
+							switch {
+							case isRaw(st.Val):
+								holds = true
+							case isLd && ld.Op == token.MUL && ld.X == ssa.Value(a):
+							default:
+								other = true
+							}
+						}
+					}
+					if holds && !other {
+						cells[a] = true
+					}
+				}
+			}
+		}
+		typTests := func(v ssa.Value) []ssa.Value { // reads of the .typ of the token v stands for
+			var out []ssa.Value
+			if isRaw(v) {
+				for _, ref := range *v.Referrers() {
+					if fld, isF := ref.(*ssa.Field); isF && loadedFieldName(fld) == "typ" {
+						out = append(out, fld)
+					}
+				}
+				return out
+			}
+			ld, isLd := v.(*ssa.UnOp)
+			if !isLd || ld.Op != token.MUL {
+				return nil
+			}
+			a, isA := ld.X.(*ssa.Alloc)
+			if !isA || !cells[a] {
+				return nil
+			}
+			for _, ref := range *a.Referrers() {
+				if fa, isFA := ref.(*ssa.FieldAddr); isFA {
+					for _, r2 := range *fa.Referrers() {
+						if l2, isL := r2.(*ssa.UnOp); isL && l2.Op == token.MUL && loadedFieldName(l2) == "typ" {
+							out = append(out, l2)
+						}
+					}
+				}
+			}
+			return out
+		}
+		for _, ex := range searchExits(sym, f) {
+			for _, rv := range ex.ret.Results {
+				rv = unspill(rv)
+				if rv.Type().String() != raws[0].Type().String() {
+					continue
+				}
+				tested := false
+				// the condition within the iteration that leaves the loop for this exit
+				cond := ex.cond
+				if !ex.inLoop {
+					for _, l := range ssaLoops(f) {
+						if l.Header.Dominates(ex.block) && !l.body()[ex.block] {
+							cond = sym.PathCond(l.Header, ex.block, nil)
+						}
+					}
+				}
+				for _, tv := range typTests(rv) {
+					if vals, decided := pcValuesWhen(cond, sym.Key(tv, nil)); decided && !vals.contains(sep) {
+						tested = true
+					}
+				}
+				if !tested {
+					ok = false // a token handed on without the separator test (or not plainly the one just read)
+				}
+			}
+		}
+		// nothing else is done with the raw tokens: they do not escape through other calls
+		for _, c := range raws {
+			for _, ref := range *c.Referrers() {
+				switch x := ref.(type) {
+				case *ssa.Field, *ssa.Return, *ssa.Phi, *ssa.DebugRef:
+				case *ssa.Store:
+					if a, isA := x.Addr.(*ssa.Alloc); !isA || !cells[a] {
+						ok = false
+					}
+				default:
+					ok = false
+				}
+			}
+		}
+		if !ok {
+			bad = append(bad, name)
+		}
+	}
+	sort.Strings(bad)
+	return readers, bad
+}
+
 func checkC10(w *World, r *Report) {
 	r.NotDecided = []string{
 		"equality of trees over all re-layouts and re-quotings of a text (a relation over runtime inputs); only the structural channel from tokens to nodes is decided",
@@ -669,18 +808,12 @@ func checkC10(w *World, r *Report) {
 
 	r.Rule("R10.3", "trivia never reach the tree builder: separator items are consumed only inside the *NonSpace helpers (the grammar functions never read raw tokens) and the comment scanners discard their text", 3)
 	r.guard("R10.3", func() {
-		next := w.Method("parse", "Tree", "next")
-		var callers []string
-		for _, f := range funcDecls(p) {
-			if isTestFile(w, f.Pos()) {
-				continue
-			}
-			if len(allCallsTo(p, f.Body, next)) > 0 {
-				callers = append(callers, funcDeclName(f))
-			}
-		}
+		callers, bad := c08RawTokenReaders(w)
 		sort.Strings(callers)
-		r.Check(strings.Join(callers, ",") == "Tree.nextNonSpace,Tree.peekNonSpace", "R10.3", "callers of Tree.next", token.NoPos, strings.Join(callers, ","), "raw tokens (including separators) are read by {"+strings.Join(callers, ",")+"}")
+		if len(bad) > 0 {
+			callers = bad
+		}
+		r.Check(len(callers) > 0 && len(bad) == 0, "R10.3", "callers of Tree.next", token.NoPos, strings.Join(callers, ","), "raw tokens (including separators) are read by {"+strings.Join(callers, ",")+"}")
 		for _, cn := range []string{"lexComment", "lexCommentLine"} {
 			fd, _ := w.FuncDecl(w.Func("parse", cn))
 			emits := len(allCallsTo(p, fd.Body, w.Method("parse", "lexer", "emit")))
